@@ -557,10 +557,22 @@ def op_lit(o):
 TOUCHES = [lambda ix: len(ix), lambda ix: ix.values, lambda ix: list(ix), lambda ix: ix.positions, lambda ix: ix.dtype, lambda ix: ix.copy()]
 
 
-def run_history(ctx, init, ops, touch_pick):
+SNAPSHOTS = {
+    'Index(go)': lambda ix: __import__('static_frame').Index(ix),
+    'Series(index=go).index': lambda ix: __import__('static_frame').Series(range(len(ix)), index=ix).index,
+    'Index(go).copy()': lambda ix: __import__('static_frame').Index(ix).copy(),
+}
+
+
+def run_history(ctx, init, ops, touch_pick, snap=None):
+    '''snap = (i, route): build a STATIC index from the grow-only one after ops[:i] (before the further growth); it is
+    returned and observed only after the whole history has run.'''
     ix = go_start(init)
     outs = []
+    taken = None
     for i, o in enumerate(ops):
+        if snap is not None and snap[0] == i:
+            taken = SNAPSHOTS[snap[1]](ix)
         try:
             if o[0] == 'append':
                 ix.append(o[1])
@@ -571,6 +583,8 @@ def run_history(ctx, init, ops, touch_pick):
             outs.append('(Ok tt)')
         except Exception as e:  # noqa
             outs.append(f'(Err {lit.s(lit.err_class(e))})')
+    if snap is not None:
+        return ix, outs, taken
     return ix, outs
 
 
@@ -643,6 +657,27 @@ def history_case(ctx, init, ops, stratum, touch_pick=None, all_probes=False):
     ctx.count(f'go:init={init[0]}', f'go:len={min(len(ops), 9)}', 'go:auto-at-end' if auto_end else 'go:mapped-at-end')
     out.append(Case(stratum, {'init': repr(init), 'ops': repr(ops_w), 'probes': repr(probes), 'outcomes': outs, 'observed': obs[:400]},
                     m=f'chk_M_go {I} {O} {P} {R} {obs}', s=f'chk_S_go {I} {O} {P} {R} {obs}', tags=dict(tags), nontrivial=len(ops) >= 1))
+    # a static index built from the grow-only one BEFORE its last growth step, probed AFTER it: the labels added later
+    # must be absent from it (it must not share mutable state with its source)
+    muts = [i for i, o in enumerate(ops) if o[0] != 'touch']
+    if muts:
+        i = muts[-1]
+        route = sorted(SNAPSHOTS)[(len(ops) + i + len(repr(ops))) % len(SNAPSHOTS)]
+        auto_p, labels_p, alias_p = classify_history(init, ops[:i])
+        later = [v for o in ops[i:] if o[0] != 'touch' for v in ([o[1]] if o[0] == 'append' else list(o[1]))]
+        seen, cand = set(), []
+        for v in list(labels_p) + later + [len(labels_p), -1, 'zz']:
+            if repr(v) not in seen:
+                seen.add(repr(v))
+                cand.append(v)
+        probes_p = [k for k in cand if not auto_p or auto_probe_class(len(labels_p), k) == 'ok'][:12]
+        _, outs_s, static = run_history(ctx, init, ops_w, touch_pick, snap=(i, route))
+        obs_s = reading(obs_lit, static, probes_p)
+        Op, Rp, Pp = lit.lst([op_lit(o) for o in ops[:i]]), lit.lst(outs_s[:i]), vl(probes_p)
+        out.append(Case(stratum + '-static', {'init': repr(init), 'ops_before': repr(ops[:i]), 'route': route, 'ops_after': repr(ops_w[i:]),
+                                              'probes': repr(probes_p), 'observed': obs_s[:400]},
+                        m=f'chk_M_go {I} {Op} {Pp} {Rp} {obs_s}', s=f'chk_S_go {I} {Op} {Pp} {Rp} {obs_s}',
+                        tags=dict({'init': init[0], 'static': route}, **({'finding': 'C02-auto-float-key'} if alias_p else {})), nontrivial=True))
     if ops and ops[-1][0] != 'touch':
         ix, outs = run_history(ctx, init, ops, touch_pick)
         obs = reading(obs_lit_cold, ix, probes)
@@ -682,6 +717,54 @@ def go_promotion_cases(ctx):
                 yield from history_case(ctx, ('auto', n0), ops, 'api:go-promotion', all_probes=True)
                 ops = [('append', n0 + i) for i in range(k)] + [('extend', ['x', 'y'])]
                 yield from history_case(ctx, ('auto', n0), ops, 'api:go-promotion', all_probes=True)
+
+
+def static_from_go_cases(ctx):
+    '''Static indices taken from grow-only containers before they grow (FrameGO.to_frame().columns, Frame(FrameGO).columns,
+    IndexDate(IndexDateGO), Index(FrameGO.columns)), observed after the growth: they hold the old labels only.'''
+    import static_frame as sf
+    C = dt_classes()
+    for _ in range(ctx.n(30, 400)):
+        kind = ctx.rng.choice(['int', 'str', 'mixed', 'auto'])
+        n = ctx.rng.choice([0, 1, 2, 4])
+        if kind == 'auto':
+            f = sf.FrameGO(np.zeros((1, n)))
+            labels = list(range(n))
+            adds = [n, 'x', n + 1][:ctx.rng.choice([1, 2, 3])]
+        else:
+            labels = draw_labels(ctx.rng, kind, n, False)
+            f = sf.FrameGO.from_element(0, index=(0,), columns=labels)
+            adds = [v for v in ['new1', 77, ('t', 1)] if not any(v == x for x in labels)][:ctx.rng.choice([1, 2, 3])]
+        route = ctx.rng.choice(['FrameGO.to_frame().columns', 'Frame(FrameGO).columns', 'Index(FrameGO.columns)', 'FrameGO.columns.copy() -> Index'])
+        static = {'FrameGO.to_frame().columns': lambda: f.to_frame().columns, 'Frame(FrameGO).columns': lambda: sf.Frame(f).columns,
+                  'Index(FrameGO.columns)': lambda: sf.Index(f.columns), 'FrameGO.columns.copy() -> Index': lambda: sf.Index(f.columns.copy())}[route]()
+        if ctx.rng.random() < 0.5:
+            static.values
+        for v in adds:
+            f[v] = 1
+        probes = list(labels)[:6] + adds + ['zz']
+        obs = f'(Ok {reading(obs_lit, static, probes)})'
+        ctx.count(f'static-from-go:{route}')
+        yield Case('api:static-from-go', {'route': route, 'labels': repr(labels), 'added_afterwards': repr(adds), 'probes': repr(probes), 'observed': obs[:300]},
+                   m=f'chk_M_auto {len(labels)} {vl(probes)} {obs[4:-1]}' if kind == 'auto' else f'chk_M_index {vl(labels)} {vl(probes)} {obs}',
+                   s=f'chk_S_index {vl(labels)} {vl(probes)} {obs}', tags={'route': route})
+    for _ in range(ctx.n(20, 300)):
+        unit = ctx.rng.choice(sorted(C))
+        cls, cls_go, pool = C[unit]
+        strs = ctx.rng.sample(pool, ctx.rng.choice([0, 1, 2]))
+        go = cls_go(strs)
+        static = cls(go) if ctx.rng.random() < 0.7 else sf.Index(go)
+        adds = [s for s in pool if s not in strs][:ctx.rng.choice([1, 2])]
+        for s in adds:
+            go.append(s)
+        probe_strs = strs + adds
+        keys = [np.datetime64(s, unit) for s in probe_strs]
+        plits = lit.lst([vlit(k) for k in keys])
+        obs = f'(Ok {reading(obs_lit, static, keys)})'
+        L = vl([np.datetime64(s, unit) for s in strs])
+        ctx.count(f'static-from-go:datetime-{unit}')
+        yield Case('api:static-from-go', {'route': f'{type(static).__name__}({cls_go.__name__})', 'labels': repr(strs), 'added_afterwards': repr(adds), 'observed': obs[:300]},
+                   m=f'chk_M_index {L} {plits} {obs}', s=f'chk_S_index {L} {plits} {obs}', tags={'route': 'datetime'})
 
 
 def go_random_cases(ctx):
@@ -1154,45 +1237,92 @@ def hier_derive_cases(ctx):
                        m=f'chk_M_index {vl(inner)} {vl(probes)} {obs}', s=f'chk_S_index {vl(inner)} {vl(probes)} {obs}', tags={'derivation': 'level_drop'})
 
 
+REALISE = {'values': lambda ih: ih.values, 'reversed': lambda ih: list(reversed(ih)), 'iloc': lambda ih: ih.iloc[0] if len(ih) else None,
+           'display': lambda ih: repr(ih), 'len': lambda ih: len(ih), 'in': lambda ih: ('zz', 0) in ih, 'none': lambda ih: None}
+IH_DERIVE = {
+    'IndexHierarchy(go)': lambda ih: __import__('static_frame').IndexHierarchy(ih),
+    'IndexHierarchyGO(go)': lambda ih: __import__('static_frame').IndexHierarchyGO(ih),
+    'go.rename()': lambda ih: ih.rename('nm'),
+    'go.copy()': lambda ih: ih.copy(),
+    'go.iloc[:]': lambda ih: ih.iloc[:],
+}
+
+
 def ihgo_append_cases(ctx):
     '''IndexHierarchyGO.append histories with ARBITRARY appended labels (continuing the tree order, re-entering an
-    earlier group, duplicates, wrong depth): judged by the specification S_hgo_run (accepted iff the table stays a
-    duplicate-free tree-ordered table).  The tree surgery of IndexLevelGO.append itself is modelled by C05/C09.'''
+    earlier group, duplicates, wrong depth), the cached table realised (values / reversed / iloc / display) or not at
+    random points; afterwards indices are DERIVED from the grown index through the constructor routes before anything
+    realises its cache again, and the derived indices and the source are all observed completely against the
+    specification S_hgo_run.  The tree surgery of IndexLevelGO.append itself is modelled by C05/C09.'''
     import static_frame as sf
     pools_by = [['a', 'b', 'c', 'd'], [1, 2, 3, 4], ['x', 'y', 'z']]
-    for _ in range(ctx.n(60, 900)):
+    for it in range(ctx.n(60, 900)):
         depth = ctx.rng.choice([2, 2, 3])
         pools = pools_by[:depth]
         table = random_tree_labels(ctx.rng, depth, [p[:3] for p in pools])[:6]
-        ih = sf.IndexHierarchyGO.from_labels(table)
-        ops, outs = [], []
+        via_frame = ctx.rng.random() < 0.3
+        if via_frame:
+            f = sf.FrameGO.from_element(0, index=(0,), columns=sf.IndexHierarchyGO.from_labels(table))
+            ih = f.columns
+        else:
+            ih = sf.IndexHierarchyGO.from_labels(table)
+        # the pattern that matters most: realise once, grow, realise nothing
+        realise_plan = ctx.rng.choice(['once-before', 'random', 'never'])
+        if realise_plan == 'once-before':
+            REALISE[ctx.rng.choice(['values', 'reversed', 'iloc', 'display'])](ih)
+        ops, outs, trace = [], [], []
+        known = list(table)
         for _ in range(ctx.rng.choice([1, 2, 3, 5])):
             r = ctx.rng.random()
-            current = [tuple(iter_items(x)) for x in ih] if r < 0.5 else table
-            last = current[-1]
-            if r < 0.45:
+            last = known[-1]
+            if r < 0.5:
                 keep = ctx.rng.randrange(0, depth)           # continue the last group at some depth
                 new = tuple(last[:keep]) + tuple(ctx.rng.choice(p) for p in pools[keep:])
             elif r < 0.9:
                 new = tuple(ctx.rng.choice(p) for p in pools)   # anything: may re-enter an earlier group or be held
             else:
                 new = tuple(ctx.rng.choice(p) for p in pools)[:depth - 1] if ctx.rng.random() < 0.5 else tuple(ctx.rng.choice(p) for p in pools) + (1,)
-            if ctx.rng.random() < 0.3:
-                len(ih)
+            if realise_plan == 'random':
+                how = ctx.rng.choice(sorted(REALISE))
+                REALISE[how](ih)
+                trace.append(how)
             try:
-                ih.append(new)
+                if via_frame:
+                    f[new] = 1
+                else:
+                    ih.append(new)
                 outs.append(True)
+                known.append(new)
             except Exception:  # noqa
                 outs.append(False)
             ops.append(new)
         rows = [tuple(ctx.rng.choice(p) for p in pools) for _ in range(2)]
-        final = [tuple(iter_items(x)) for x in reading(list, ih)]
-        probes = hier_probes(ctx.rng, final, rows)
+        seen, probes = set(), []
+        for x in list(table) + ops + rows + [tuple(table[0][:-1]), tuple(table[0]) + (table[0][-1],)]:
+            if repr(x) not in seen:
+                seen.add(repr(x))
+                probes.append(list(x))
+        probes = probes[:12]
+        # derive first (nothing has realised the cache of the source since its last growth step), observe afterwards
+        routes_ = ctx.rng.sample(sorted(IH_DERIVE), 2 if ctx.tier == 'quick' else 3)
+        derived = []
+        for name in routes_:
+            try:
+                derived.append((name, IH_DERIVE[name](ih)))
+            except Exception as e:  # noqa
+                derived.append((name, e))
+        common = f'{ll(table)} {ll(ops)} {lit.lst([lit.b(x) for x in outs])} {ll(probes)}'
+        desc = {'initial': repr(table), 'appended': repr(ops), 'outcomes': outs, 'realise': realise_plan + ':' + ','.join(trace), 'via': 'FrameGO.columns' if via_frame else 'IndexHierarchyGO'}
+        for name, d in derived:
+            ctx.count(f'ihgo:derived:{name}')
+            if isinstance(d, Exception):
+                yield Case('api:ihgo-derived', dict(desc, derivation=name, error=type(d).__name__), py_fail=f'{name} of a grown IndexHierarchyGO raised {type(d).__name__}: {str(d)[:100]}', tags={'route': name})
+                continue
+            obs = reading(hobs_lit, d, probes)
+            yield Case('api:ihgo-derived', dict(desc, derivation=name, observed=obs[:300]), s=f'chk_S_hier_go {common} {obs}', tags={'route': name})
         obs = reading(hobs_lit, ih, probes)
-        ctx.count('ihgo:append-history', f'ihgo:accepted={sum(outs)}', f'ihgo:rejected={len(outs) - sum(outs)}')
-        yield Case('api:ihgo-append', {'initial': repr(table), 'appended': repr(ops), 'outcomes': outs, 'observed': obs[:300]},
-                   s=f'chk_S_hier_go {ll(table)} {ll(ops)} {lit.lst([lit.b(x) for x in outs])} {ll(probes)} {obs}',
-                   tags={'route': 'IHGO.append'})
+        ctx.count('ihgo:append-history', f'ihgo:accepted={sum(outs)}', f'ihgo:rejected={len(outs) - sum(outs)}', f'ihgo:realise={realise_plan}')
+        yield Case('api:ihgo-append', dict(desc, observed=obs[:300]), s=f'chk_S_hier_go {common} {obs}', tags={'route': 'IHGO.append'})
 
 
 # ----------------------------------------------------------------------------- oracle / kernel strata
@@ -1216,7 +1346,7 @@ def automap_oracle_cases(ctx):
                        nontrivial=n >= 2)
 
 
-STRATA = [construct_small_cases, construct_random_cases, dtype_cases, auto_cases, go_small_cases, go_promotion_cases, go_random_cases,
+STRATA = [construct_small_cases, construct_random_cases, dtype_cases, auto_cases, go_small_cases, go_promotion_cases, go_random_cases, static_from_go_cases,
           multi_key_cases, derive_cases, auto_derive_cases, datetime_cases, hier_small_cases, hier_random_cases, hier_derive_cases, ihgo_append_cases,
           automap_oracle_cases]
 
